@@ -504,7 +504,7 @@ func (c *Ctx) c03Indicator(typeKey string, sp Spec, inputs [][]float64, v c03Var
 			}
 		}
 		c.Count("generated-network runs")
-		c.AddCase(fmt.Sprintf("KShape (let c_ := %s in %s_Compute_desc c_ %s %d%%nat %s) %d%%nat %s %s %s", cfg, t.Coq, coqOuts(t, "c_"), v.InCap, coqNats(lens), 1500+40*(nmax+5), coqBool(closed), coqBool(clean), coqNats(outLens)),
+		c.AddCase(fmt.Sprintf("(let c_ := %s in KGen %s (%s_Compute_desc c_ %s %d%%nat %s) %d%%nat %s %s %s)", cfg, admTerm(typeKey, t, "c_"), t.Coq, coqOuts(t, "c_"), v.InCap, coqNats(lens), 1500+40*(nmax+5), coqBool(closed), coqBool(clean), coqNats(outLens)),
 			CaseInfo{Subject: typeKey, Desc: fmt.Sprintf("generated network of %s, input lengths %v, input capacity %d: every output closed=%v, no goroutine left=%v, output lengths %v", cfg, lens, v.InCap, closed, clean, outLens),
 				Input: c03FlowInput{Type: typeKey, Spec: sp, Cfg: cfg, Variant: v, Inputs: ins, Closed: closed, Clean: clean}}, nmax > 0)
 	}
@@ -543,7 +543,7 @@ func (c *Ctx) c03Strategy(typeKey string, sp Spec, b Bars, v c03Variant) {
 		}
 		n := len(b.Close)
 		c.Count("generated-network runs")
-		c.AddCase(fmt.Sprintf("KShape (let c_ := %s in %s_Compute_desc c_ %s %d%%nat %s) %d%%nat %s %s %s", cfg, t.Coq, atF(t.Coq+"_Compute", "c_ (EIn 0)"), v.InCap, coqNats([]int{n}), 1500+40*(n+5), coqBool(closed), coqBool(clean), coqNats(outLens)),
+		c.AddCase(fmt.Sprintf("(let c_ := %s in KGen %s (%s_Compute_desc c_ %s %d%%nat %s) %d%%nat %s %s %s)", cfg, adm, t.Coq, atF(t.Coq+"_Compute", "c_ (EIn 0)"), v.InCap, coqNats([]int{n}), 1500+40*(n+5), coqBool(closed), coqBool(clean), coqNats(outLens)),
 			CaseInfo{Subject: typeKey, Desc: fmt.Sprintf("generated network of %s, n=%d, input capacity %d: output closed=%v, no goroutine left=%v, lengths %v", cfg, n, v.InCap, closed, clean, outLens),
 				Input: c03FlowInput{Type: typeKey, Spec: sp, Cfg: cfg, Variant: v, Bars: barsJSON(b), Closed: closed, Clean: clean}}, n > 0)
 	}
